@@ -8,6 +8,6 @@ From KV Require Import Model.ConsumerGroup.
 Extraction Language OCaml.
 Extraction "c15_model.ml"
   init step run cur
-  mon_one_live mon_heartbeat mon_backoff mon_leave mon_leave_full mon_done C15_holds
-  f5_witness new_gen g_set_pub
+  mon_one_live mon_heartbeat mon_backoff mon_leave_full mon_done C15_holds
+  f5_scenario new_gen g_set_pub
   N.of_nat Z.of_N. (* the last two only so that kvio.ml.in finds the type n *)
